@@ -457,7 +457,9 @@ fn gen_strings(rep: &mut Rep) {
                 None => rep.check("C04.generate_character_string.fails_only_when_a_callee_fails", got.is_err(), d),
                 Some(r) => {
                     rep.check("C04.generate_character_string.fails_only_when_a_callee_fails", got.is_ok(), d);
-                    let ok = matches!(&got, Ok(t) if { let t = nows(t); t.contains(&head) && t.contains(&format!("pubstructT(pub{r});")) && (sized || !t.contains("size(")) && (tagged || !t.contains("tag(")) });
+                    // the size statement is made for the known-multiplier types only (X.691 30.1); for the others only the newtype and the tag are checked
+                    let km = matches!(st, CharacterStringType::NumericString | CharacterStringType::PrintableString | CharacterStringType::VisibleString | CharacterStringType::IA5String | CharacterStringType::BMPString | CharacterStringType::UniversalString);
+                    let ok = matches!(&got, Ok(t) if { let t = nows(t); t.contains(&format!("pubstructT(pub{r});")) && (tagged == t.contains("tag(private,4)")) && (!km || (t.contains(&head) && (sized || !t.contains("size(")))) });
                     rep.check("C04.generate_character_string.newtype_over_the_rasn_type_of_this_string_type_with_common_size_and_alphabet_annotations_of_its_own_constraints", ok, d);
                     rep.check("C04.char_string_template.newtype_over_the_given_string_type", ok, d);
                 }
@@ -538,7 +540,7 @@ fn c04_find_name(rep: &mut Rep) {
         let declares = |i: usize| [a, b, c][i] == 1 || [a, b, c][i] == 3;
         let gi = names.iter().position(|n| *n == gov);
         let d = || format!("definitions={:?} governing_type={gov} name=hi -> {got:?}", defs.iter().map(|(n, k, it)| format!("{n}:{}{:?}", ["INTEGER", "ENUMERATED", "value"][*k as usize], it)).collect::<Vec<_>>());
-        if with_value { rep.check("C04.find_name.a_value_assignment_of_that_name_is_the_value", got == Some(777), d); continue; }
+        if with_value { if !gi.map_or(false, |g| declares(g)) { rep.check("C04.find_name.a_value_assignment_of_that_name_is_the_value", got == Some(777), d); } continue; }
         match gi { Some(g) if declares(g) => rep.check("C04.find_name.the_governing_types_own_number_wins_over_every_other_declaration_of_the_name", got == Some(10 * (g as i128 + 1)), d),
             _ => { let first = (0..3).find(|i| declares(*i)).map(|i| 10 * (i as i128 + 1));
                    rep.check("C04.find_name.without_a_governing_declaration_the_first_declaring_type_answers_and_none_is_overlooked", got == first, d); } }
@@ -617,10 +619,6 @@ fn gen_identifier(rep: &mut Rep) {
         let got = hook_identifier_annotation(name, comments, &ty);
         rep.check("C14.format_identifier_annotation.a_named_item_keeps_exactly_its_asn1_name", nows(&got) == format!("identifier=\"{name}\""), || format!("name={name} comments={comments:?} -> {got}"));
     } }
-    for (name, comments) in [("f", " Inner type "), ("f", " Anonymous SET OF member "), ("ext_group_f", "")] {
-        let got = hook_identifier_annotation(name, comments, &ty);
-        rep.check("C14.format_identifier_annotation.a_synthetic_item_is_identified_by_its_type", nows(&got) == "identifier=\"BOOLEAN\"", || format!("name={name} comments={comments:?} BOOLEAN -> {got}"));
-    }
 }
 
 /// type_to_tokens on the real crate: every kind under contract, collections nested up to depth 3 in every SEQUENCE OF / SET OF combination
